@@ -11,10 +11,11 @@ VARIABLES hist, parked, draining
 gvars == <<vars, hist, parked, draining>>
 GInit == Init /\ hist = <<>> /\ parked = FALSE /\ draining = FALSE
 Lbl(x) == hist' = Append(hist, x)
-Yields(r) == r.kind \in {"create", "delete", "movedfrom", "movedto"} \/ (r.kind = "delself" /\ \E x \in wdT : x.wd = r.wd)
+Yields(r) == r.kind \in {"create", "createfile", "delete", "movedfrom", "movedto"} \/ (r.kind = "delself" /\ \E x \in wdT : x.wd = r.wd)
 Vis == \/ \E r \in Roots : (AddRec(r) /\ Lbl(<<"add", TruePath(r)>>)) \/ (RemoveRec(r) /\ Lbl(<<"remove", TruePath(r)>>))
        \/ \E p \in 1..MaxIno, n \in Comp : Mkdir(p, n) /\ Lbl(<<"mkdir", Append(TruePath(p), n)>>)
        \/ \E i \in 1..MaxIno : Rmdir(i) /\ Lbl(<<"rmdir", TruePath(i)>>)
+       \/ \E p \in 1..MaxIno, n \in Comp : Touch(p, n) /\ Lbl(<<"touch", Append(TruePath(p), n)>>)
        \/ \E i, np \in 1..MaxIno, n \in Comp : Rename(i, np, n) /\ Lbl(<<"rename", TruePath(i), Append(TruePath(np), n)>>)
        \/ \E i, j \in 1..MaxIno : RenameOver(i, j) /\ Lbl(<<"rename2", TruePath(i), TruePath(j)>>)
 \* the reader runs whenever it can: priority over the driver's next step (the driver waits for quiescence)
